@@ -32,6 +32,19 @@ func (r *Rand) Intn(n int) int {
 }
 func (r *Rand) Chance(pct int) bool { return r.Intn(100) < pct }
 func (r *Rand) Fork() *Rand         { return NewRand(r.U64()) }
+
+// Perm returns a random permutation of 0..n-1.
+func (r *Rand) Perm(n int) []int {
+	p := make([]int, n)
+	for i := range p {
+		p[i] = i
+	}
+	for i := n - 1; i > 0; i-- {
+		j := r.Intn(i + 1)
+		p[i], p[j] = p[j], p[i]
+	}
+	return p
+}
 func Pick[T any](r *Rand, xs []T) T { return xs[r.Intn(len(xs))] }
 
 // Hex encodes bytes; the empty string is "-".
